@@ -124,6 +124,16 @@ theorem aw_takeN (n : Nat) (k : String) : AllocW n A B (takeN n k) := by
   · simp only [takeN, h, if_false, List.length_drop]
     exact ⟨by omega, by omega, by omega, List.drop_suffix _ _⟩
 
+/-- `read_raw_bytes`: behind its length guard the `split_at` cannot panic — the two steps together are `takeN`. -/
+theorem readRaw_eq_takeN (n : Nat) : readRaw n = takeN n "few" := by
+  funext s
+  unfold readRaw takeN
+  simp only [bind_def, remaining]
+  by_cases h : s.buf.length < n
+  · simp [h]
+  · have h2 : ¬ (n > s.buf.length) := by omega
+    simp [h, splitAtP, h2]
+
 theorem aw_ite {c : Prop} [Decidable c] {a b : M α} (ha : AllocW w A B a) (hb : AllocW w A B b) :
     AllocW w A B (if c then a else b) := by
   split <;> assumption
